@@ -14,6 +14,13 @@ def main():
     if a.replay:
         sys.exit(mod.replay(a.replay, out))
     info = common.build()
+    # overall watchdog: a check that hangs is reported as broken, never left running
+    import threading
+    budget = 900 if a.tier == 'quick' else 6 * 3600
+    def _wd():
+        out.broken.append(f'check exceeded its time budget of {budget} s (hang?)')
+        rc = out.finish(); sys.stdout.flush(); os._exit(rc or 1)
+    wd = threading.Timer(budget, _wd); wd.daemon = True; wd.start()
     try:
         mod.run(out, info, a.tier, seed)
     except Exception:
